@@ -98,14 +98,17 @@ func runC04(e *Env) {
 		nProg = 60000
 	}
 	rng := e.Rng.Fork()
+	frng := e.Rng.Fork().Fork() // the fragment-only generator's stream (c04frag.go)
 	for i := 0; i < nProg; i++ {
 		r := rng.Fork()
 		o := GenOpts{MaxStmts: 3 + r.Intn(3), MaxDepth: 2 + r.Intn(3), Budget: 60 + r.Intn(200), Funcs: true, Closures: true,
 			Containers: true, Strings: r.Bool(), CtlHeavy: i%2 == 0, NoCtlInSwitch: r.Chance(85)}
 		p := GenProgram(r, o)
 		c04Program(e, p, fmt.Sprintf("gen#%d", i))
+		c04FragTie(e, p, frng)
 	}
 	c04Directed(e)
+	c04FragDeep(e)
 	// repository scripts
 	var files []string
 	for _, dir := range []string{"examples", "tests", "vm", "cmd", "research"} {
